@@ -295,7 +295,7 @@ def r6(cx):
                and any(e["text"] == "Error" + name and [x[0] for x in e["fields"]] == [field] for e in structs)
         cx.check(good, "C07.R6", "varlink:emitter:%s" % name, "%s:%d" % (LIB, f.line), "%s emits %s with %s" % (fn, lits, [(e["text"], e["fields"]) for e in structs]),
                  note_ok="%s -> \"org.varlink.service.%s\" + Error%s{%s}" % (fn, name, name, field))
-        st = ast.items(LIB, kind="struct", name="Error" + name)
+        st = [i for _, i in ast.items_in_crate(LIB, kind="struct", name="Error" + name)]
         okf = len(st) == 1 and [x["name"] for x in st[0]["fields"]] == [field]
         cx.check(okf, "C07.R6", "varlink:struct:Error%s" % name, LIB, "struct Error%s does not have the single member %s" % (name, field), note_ok="member %s" % field)
     # (iv) IDL text of the built-in interface
